@@ -361,6 +361,8 @@ Vectors(v) ==        \* all vectors choosing one listed value per slot
 Base(v) == [i \in 1..Len(v) |-> v[i][1]]
 
 Inis(K) ==
+  IF K.inimode = "list" THEN {[e |-> K.extra[i].e, q |-> K.extra[i].q] : i \in 1..Len(K.extra)}   \* exactly the listed vectors
+  ELSE
   IF K.inimode = "all" THEN {[e |-> es, q |-> qs] : es \in Vectors(K.valid.e), qs \in Vectors(K.valid.q)}
   ELSE LET b == [e |-> Base(K.valid.e), q |-> Base(K.valid.q)] IN
        IF K.inimode = "base" THEN {b} \cup {[e |-> K.extra[i].e, q |-> K.extra[i].q] : i \in 1..Len(K.extra)}
